@@ -156,7 +156,7 @@ def check_C12(prop, tier, seed):
     rundir = os.path.join(vc.RUN, "C12-%s" % tier)
     shutil.rmtree(rundir, ignore_errors=True)
     os.makedirs(rundir)
-    ncases = 500 if tier == "quick" else 3000
+    ncases = 2500 if tier == "quick" else 12000
     scale = 500 if tier == "quick" else 900
     g = subprocess.run([binaries[cfgs[0]], "gen", "C12", "--cases", str(ncases), "--scale", str(scale), "--seed",
                         str(vc.seed_for(seed, prop, "gen", 0))], stdout=subprocess.PIPE, stderr=subprocess.PIPE)
